@@ -442,20 +442,27 @@ def reverse(ck, rng, orc, cap, i):
         cap.reply = None
         sent = []
 
+        err2 = rng.choice([0, -22, -3])
+        verdicts, n_sent, failed_once = [err, err2], [0], [False]
+
         def socket_factory(groups):
+            # like a real netlink socket: what the kernel answered waits in the receive queue of THAT socket until it is read
             s = Capture.socket(cap, groups)
             s_send = s.send
+            queue = []
 
             def send(data):
                 r = s_send(data)
-                cap.reply = bytes.fromhex(orc.cmd(f'K err={err} pid={pid} req={bytes(data).hex()}')['hex'])
+                queue.append(bytes.fromhex(orc.cmd(f'K err={verdicts[min(n_sent[0], 1)]} pid={pid} req={bytes(data).hex()}')['hex']))
+                n_sent[0] += 1
                 return r
-            s.send = send
-            if lost is not None:
-                def recv(n):
-                    cap.reply = None
+
+            def recv(n):
+                if lost is not None and not failed_once[0]:
+                    failed_once[0] = True
                     raise OSError(lost, os.strerror(lost))
-                s.recv = recv
+                return queue.pop(0) if queue else b''
+            s.send, s.recv = send, recv
             return s
         saved = r_netlink.NetlinkProtocol._get_socket
         r_netlink.NetlinkProtocol._get_socket = classmethod(lambda cls, groups: socket_factory(groups))
@@ -499,6 +506,23 @@ def reverse(ck, rng, orc, cap, i):
             ck.nontrivial(('reply-lost', err, lost, case.get('through')))
             if err != 0 and raised is None:
                 ck.violation(f"request-the-kernel-refused-reported-as-done-when-the-verdict-was-lost-in-recv:{case.get('through')}", {'errno': err, 'recv_errno': lost}, case)
+                return
+            # the NEXT request is judged by its own verdict, not by the one that was never read
+            r_netlink.NetlinkProtocol._get_socket = classmethod(lambda cls, groups: socket_factory(groups))
+            raised2 = None
+            try:
+                r_xfrm.Xfrm.flush_sas()
+            except r_netlink.NetlinkError as ex:
+                raised2 = ex
+            except Exception as ex:
+                ck.violation(f'send_recv-raised-{type(ex).__name__}:request-after-a-lost-verdict', {'exc': repr(ex)[:160]}, case)
+                return
+            finally:
+                r_netlink.NetlinkProtocol._get_socket = saved
+            ck.count('reverse.reply.requests_after_a_lost_verdict')
+            if (err2 != 0) != (raised2 is not None):
+                ck.violation(f"request-judged-by-the-unread-verdict-of-the-request-before-it:{'refusal-reported-as-done' if err2 else 'ack-reported-as-an-error'}",
+                             {'verdict_never_read': err, 'own_verdict': err2, 'raised': repr(raised2)}, case)
             return
         ck.count('reverse.reply.' + ('ack' if err == 0 else 'error'))
         ck.nontrivial(('reply', err, pid == os.getpid()))
@@ -554,6 +578,7 @@ def run(ck):
 
 
 def verdict(ck):
+    ck.floor('requests issued right after a request whose verdict was lost in recv()', ck.counters['reverse.reply.requests_after_a_lost_verdict'], 100)
     ck.floor('refusals of the kernel whose reply was lost in recv() (ENOBUFS, EAGAIN, ENOMEM)', ck.counters['reverse.reply.verdict_lost_in_recv.refusal'], 60)
     c = ck.counters
     ck.floor('NEWSA requests decoded by the C oracle', c['forward.NEWSA'], 800)
